@@ -17,6 +17,10 @@ type Key = tls.EncryptedClientHelloKey
 
 // Config returns a serialized Encrypted Client Hello (ECH) Config List.
 func ConfigList(configs []Config) ([]byte, error) {
+	// ECHConfigList<4..2^16-1>: a list holds at least one config.
+	if len(configs) == 0 {
+		return nil, errors.New("empty config list")
+	}
 	b := cryptobyte.NewBuilder(nil)
 	b.AddUint16LengthPrefixed(func(c *cryptobyte.Builder) {
 		for _, cfg := range configs {
